@@ -1,6 +1,9 @@
 import WfProofs.EngineReduce
 import WfProofs.RunnerWorkers
 import WfProofs.EngineUnrepaired
+import WfProofs.RunnerSlots
+import WfProofs.RunnerSend
+import WfModel.GenWorkerSlots
 /-!
 # C01 — a step never runs more invocations at once than its worker limit
 
@@ -279,3 +282,387 @@ example :
     let r := Runner.init C01.exCfg st0 5 none none
     (r.running.map (fun w => (w.step, w.wid, w.ev.uid)), (r.st.workers 1).queue.length)
       = ([(1, 0, 2), (1, 1, 1)], 1) := by decide
+
+/-! ## From whatever state the run is started
+
+`rewind_in_progress` empties every `in_progress` list before it starts anything, so nothing has to be
+assumed of the state a run (or a replay of a tick log: `rebuild_state_from_ticks`, `replay_ticks_stream`)
+is started from: the hypothesis `IdsInv cfg st0` of the theorems above is not needed — a state with
+duplicated or out-of-range worker ids, or with more in-progress rows than workers, is repaired by the
+rewind.  (`C01_slots_distinct_in_range` remains the statement for reductions that are *not* preceded by a
+rewind: one `reduce` keeps the invariant.) -/
+
+/-- the reducer, any start -/
+theorem C01_slots_distinct_in_range_any_start (cfg : Cfg) (hwf : cfg.WF) (pol : Policy) (st0 : State)
+    (now0 : Int) (ticks : List (Tick × Int)) : IdsInv cfg (C01.reach cfg pol st0 now0 ticks) := by
+  unfold C01.reach
+  have hr := rewind_idsInv_fresh cfg hwf st0 now0
+  generalize (rewind cfg st0 now0).1 = st at hr
+  induction ticks generalizing st with
+  | nil => simpa using hr
+  | cons tn rest ih =>
+    simp only [List.foldl_cons]
+    exact ih _ (reduce_idsInv cfg hwf pol tn.1 st tn.2 hr)
+
+theorem C01_workers_bounded_any_start (cfg : Cfg) (hwf : cfg.WF) (pol : Policy) (st0 : State)
+    (now0 : Int) (ticks : List (Tick × Int)) :
+    ∀ c ∈ cfg.steps,
+      ((C01.reach cfg pol st0 now0 ticks).workers c.name).inProg.length ≤ c.numWorkers := fun c hc =>
+  (C01_slots_distinct_in_range_any_start cfg hwf pol st0 now0 ticks c hc).length_le
+
+/-- the runner, any start: clause 1 -/
+theorem C01_running_subset_in_progress_any_start (cfg : Cfg) (hwf : cfg.WF) (pol : Policy) (st0 : State)
+    (now : Int) (start : Option Ev) (timeout : Option Nat) (acts : List Act) :
+    (∀ w ∈ (C01.runFrom cfg pol st0 now start timeout acts).running,
+      w.step ∈ cfg.names ∧
+      ∃ ip ∈ ((C01.runFrom cfg pol st0 now start timeout acts).st.workers w.step).inProg,
+        ip.wid = w.wid) ∧
+    ((C01.runFrom cfg pol st0 now start timeout acts).running.map Worker.slot).Nodup := by
+  have h := run_runInv cfg hwf pol False acts _ (guarded_false cfg pol acts _)
+    (init_runInv_fresh cfg hwf False st0 now start timeout)
+  exact ⟨h.slotInv.sub, h.nodup⟩
+
+/-- the runner, any start: clause 2 -/
+theorem C01_running_bounded_any_start (cfg : Cfg) (hwf : cfg.WF) (pol : Policy) (st0 : State)
+    (now : Int) (start : Option Ev) (timeout : Option Nat) (acts : List Act) :
+    (∀ c ∈ cfg.steps,
+      ((C01.runFrom cfg pol st0 now start timeout acts).running.filter
+        (fun w => w.step == c.name)).length ≤ c.numWorkers) ∧
+    ∀ w ∈ (C01.runFrom cfg pol st0 now start timeout acts).running, w.wid < cfg.nw w.step :=
+  (run_runInv cfg hwf pol False acts _ (guarded_false cfg pol acts _)
+    (init_runInv_fresh cfg hwf False st0 now start timeout)).bounded hwf
+
+/-- the runner, any start: the event part keeps its (only) guard -/
+theorem C01_running_same_event_partial_any_start (cfg : Cfg) (hwf : cfg.WF) (pol : Policy) (st0 : State)
+    (now : Int) (start : Option Ev) (timeout : Option Nat) (acts : List Act)
+    (he : Runner.sameEvent cfg pol (Runner.init cfg st0 now start timeout) acts = true) :
+    ∀ w ∈ (C01.runFrom cfg pol st0 now start timeout acts).running,
+      ∃ ip ∈ ((C01.runFrom cfg pol st0 now start timeout acts).st.workers w.step).inProg,
+        ip.wid = w.wid ∧ ip.ev = w.ev := by
+  have h := run_runInv cfg hwf pol True acts _ (guarded_of_sameEvent cfg pol acts _ he)
+    (init_runInv_fresh cfg hwf True st0 now start timeout)
+  intro w hw
+  obtain ⟨_, ip, hip, hwid, hev⟩ := h.sub w hw
+  exact ⟨ip, hip, hwid, hev trivial⟩
+
+/-- schedules in which running invocations call `ctx.send_event` (`Runner.runS`): same bound -/
+theorem C01_running_bounded_with_step_sends (cfg : Cfg) (hwf : cfg.WF) (pol : Policy) (st0 : State)
+    (now : Int) (start : Option Ev) (timeout : Option Nat) (acts : List CtxAct) :
+    let r := Runner.runS cfg pol (Runner.init cfg st0 now start timeout) acts
+    ((r.running.map Worker.slot).Nodup ∧
+      ∀ c ∈ cfg.steps, (r.running.filter (fun w => w.step == c.name)).length ≤ c.numWorkers) ∧
+    ∀ w ∈ r.running, w.wid < cfg.nw w.step := by
+  have key : ∀ (acts : List CtxAct) (r : Runner), RunInv cfg False r →
+      RunInv cfg False (Runner.runS cfg pol r acts) := by
+    intro acts
+    induction acts with
+    | nil => intro r h; exact h
+    | cons a as ih =>
+      intro r h
+      simp only [Runner.runS, List.foldl_cons]
+      apply ih
+      cases a with
+      | act a => exact step_runInv cfg hwf pol False r a (fun hf => hf.elim) h
+      | stepSend s w e tgt =>
+        simp only [Runner.stepS]
+        split
+        · exact step_runInv cfg hwf pol False r _ (fun hf => hf.elim) h
+        · exact h
+  have h := key acts _ (init_runInv_fresh cfg hwf False st0 now start timeout)
+  exact ⟨⟨h.nodup, (h.bounded hwf).1⟩, (h.bounded hwf).2⟩
+
+/-- **The slot choice never raises, whatever the table**: `C01_allocator_total` without its hypothesis.
+`id_candidates[0]` fails only if every id below `num_workers` is taken, and then the table has at least
+`num_workers` rows — duplicates and out-of-range ids included — so `has_space` is false. -/
+theorem C01_allocator_total_any_table (att : Attempt) (step : Nat) (ss : StepState) (nw : Nat) (now : Int) :
+    Cmd.crash ∉ (addOrEnqueue att step ss nw now).2 :=
+  addOrEnqueue_no_crash_any att step ss nw now
+
+/-- hence the rewind at the start of a run (or of a replay) raises nothing from whatever state -/
+theorem C01_rewind_never_raises (cfg : Cfg) (st : State) (now : Int) : Cmd.crash ∉ (rewind cfg st now).2 :=
+  rewind_no_crash_any cfg st now
+
+/-- non-vacuity: a table with a duplicated and an out-of-range id and a free slot: slot 0 is picked -/
+example :
+    let ip (w : Nat) : InProg :=
+      { ev := C01.exEv w, wid := w, snapEvents := [], snapWaiters := [], attempts := 0, firstAt := 0 }
+    ((addOrEnqueue { ev := C01.exEv 9 } 1 { inProg := [ip 1, ip 1, ip 7] } 4 0).2.head?) =
+      some (.runWorker 1 (C01.exEv 9) 0) := by decide
+
+/-- non-vacuity: a state no run leaves behind — three rows on a 2-worker step, two of them on slot 1, one
+on slot 7 — is repaired by the rewind: two workers restarted on slots 0 and 1, one event back in the queue -/
+def C01.corruptState : State :=
+  let ip (u w : Nat) : InProg :=
+    { ev := C01.exEv u, wid := w, snapEvents := [], snapWaiters := [], attempts := 0, firstAt := 0 }
+  { isRunning := true, workers := fun s => if s = 1 then { inProg := [ip 1 1, ip 2 1, ip 3 7] } else {} }
+
+example : ¬ IdsInv C01.exCfg C01.corruptState := by
+  intro h
+  have := (h { name := 1, accepted := [5], numWorkers := 2, hasRetry := false } (by simp [C01.exCfg])).1
+  revert this
+  decide
+
+example :
+    let r := C01.runFrom C01.exCfg C01.exPol C01.corruptState 5 none none []
+    (r.running.map (fun w => (w.step, w.wid, w.ev.uid)), (r.st.workers 1).inProg.map (·.wid),
+      (r.st.workers 1).queue.map (·.ev.uid)) = ([(1, 0, 3), (1, 1, 2)], [0, 1], [1]) := by decide
+
+/-! ## Between two commands
+
+`_process_tick` and the start of `run()` await `process_command` once per command, and `process_command`
+awaits the adapter (`write_to_event_stream`, `get_now`): worker tasks run, and the runner is observable, between
+any two commands of one tick.  `WfModel/RunnerMicro.lean` lists every state on the way (`Runner.microStates`,
+`Runner.initStates`, `Runner.allStates`); `C01.history` is every state a run passes through, in order. -/
+
+/-- every runner state a run passes through, command by command, in order -/
+def C01.history (cfg : Cfg) (pol : Policy) (st0 : State) (now : Int) (start : Option Ev)
+    (timeout : Option Nat) (acts : List Act) : List Runner :=
+  Runner.initStates cfg st0 now start timeout ++
+    Runner.allStates cfg pol (Runner.init cfg st0 now start timeout) acts
+
+theorem C01.getLast_glue {α} (x y : α) (l1 l2 : List α) (h : (x :: l1).getLast? = some y) :
+    (x :: (l1 ++ l2)).getLast? = (y :: l2).getLast? := by
+  have e1 : x :: (l1 ++ l2) = (x :: l1) ++ l2 := rfl
+  have e2 : y :: l2 = [y] ++ l2 := rfl
+  rw [e1, e2, List.getLast?_append, List.getLast?_append, h]
+  rfl
+
+theorem C01.allStates_last (cfg : Cfg) (pol : Policy) : ∀ (acts : List Act) (r : Runner),
+    (r :: Runner.allStates cfg pol r acts).getLast? = some (Runner.run cfg pol r acts)
+  | [], r => rfl
+  | a :: as, r => by
+    simp only [Runner.allStates, Runner.run, List.foldl_cons]
+    have hm := microStates_last cfg pol r a
+    have h1 : (r :: r.microStates cfg pol a).getLast? = some (r.step cfg pol a) := by
+      cases hmm : r.microStates cfg pol a with
+      | nil => rw [hmm] at hm; simp at hm
+      | cons b l => rw [hmm] at hm; rw [List.getLast?_cons_cons]; exact hm
+    rw [C01.getLast_glue r _ _ _ h1]
+    exact C01.allStates_last cfg pol as _
+
+/-- the fine-grained semantics is the same LTS: the history ends in the state the run ends in -/
+theorem C01_history_ends_in_run (cfg : Cfg) (pol : Policy) (st0 : State) (now : Int) (start : Option Ev)
+    (timeout : Option Nat) (acts : List Act) :
+    (C01.history cfg pol st0 now start timeout acts).getLast? =
+      some (C01.runFrom cfg pol st0 now start timeout acts) := by
+  unfold C01.history
+  have hi := initStates_last cfg st0 now start timeout
+  cases hinit : Runner.initStates cfg st0 now start timeout with
+  | nil => rw [hinit] at hi; simp at hi
+  | cons x tl =>
+    rw [hinit] at hi
+    rw [List.cons_append, C01.getLast_glue x _ tl _ hi]
+    exact C01.allStates_last cfg pol acts _
+
+/-- **The worker limit between any two commands**: in every state of the history — after each single
+command of each tick, of the start-up rewind too, for every schedule, from whatever state the run is
+started — every live task is backed by an in-progress row of its configured step, the live slots are
+pairwise distinct, a step has at most `num_workers` live tasks and each runs on a slot `< num_workers`. -/
+theorem C01_bounded_between_commands (cfg : Cfg) (hwf : cfg.WF) (pol : Policy) (st0 : State) (now : Int)
+    (start : Option Ev) (timeout : Option Nat) (acts : List Act) :
+    ∀ r ∈ C01.history cfg pol st0 now start timeout acts,
+      (∀ w ∈ r.running, w.step ∈ cfg.names ∧ ∃ ip ∈ (r.st.workers w.step).inProg, ip.wid = w.wid) ∧
+      (r.running.map Worker.slot).Nodup ∧
+      (∀ c ∈ cfg.steps, (r.running.filter (fun w => w.step == c.name)).length ≤ c.numWorkers) ∧
+      ∀ w ∈ r.running, w.wid < cfg.nw w.step := by
+  intro r hr
+  have hs : SlotInv cfg r := by
+    rcases List.mem_append.mp hr with h | h
+    · exact initStates_slotInv cfg hwf st0 now start timeout r h
+    · exact allStates_slotInv cfg hwf pol acts _ (init_runInv_fresh cfg hwf False st0 now start timeout) r h
+  exact ⟨hs.sub, hs.nodup, (hs.bounded hwf).1, (hs.bounded hwf).2⟩
+
+/-- **Refinement to a slot table**: the history starts with no live task, and every two consecutive
+states of it are related by one move of the slot-table specification `SlotMove` — nothing, a start on a
+slot that is free at that very moment (of a configured step, below its limit), the end of one slot's
+task, or the end of all tasks.  In particular no command ever starts a worker on an occupied slot. -/
+theorem C01_slot_table_refinement (cfg : Cfg) (hwf : cfg.WF) (pol : Policy) (st0 : State) (now : Int)
+    (start : Option Ev) (timeout : Option Nat) (acts : List Act) :
+    Linked (Moves cfg) (C01.history cfg pol st0 now start timeout acts) ∧
+      ∃ x tl, C01.history cfg pol st0 now start timeout acts = x :: tl ∧ x.running = [] := by
+  obtain ⟨hl, x, tl, hx, hx0⟩ := initStates_linked cfg hwf st0 now start timeout
+  have hi := initStates_last cfg st0 now start timeout
+  have ha := allStates_linked cfg hwf pol acts _ (init_runInv_fresh cfg hwf False st0 now start timeout)
+  unfold C01.history
+  rw [hx] at hl hi ⊢
+  exact ⟨Linked.glue tl x _ _ hl hi ha, x, _, rfl, hx0⟩
+
+/-- **Safety of the specification**, with no reference to the engine: any history that starts with an
+empty table and makes only slot-table moves keeps the slots distinct and in range, hence at most
+`num_workers` tasks per step. -/
+theorem C01_slot_table_spec_safe (cfg : Cfg) (hwf : cfg.WF) (x : Runner) (l : List Runner)
+    (h : Linked (Moves cfg) (x :: l)) (hx : x.running = []) :
+    ∀ y ∈ x :: l, SlotSafe cfg y.running ∧
+      ∀ c ∈ cfg.steps, (y.running.filter (fun w => w.step == c.name)).length ≤ c.numWorkers :=
+  fun y hy => ⟨linked_safe l x h hx y hy, (linked_safe l x h hx y hy).bounded hwf⟩
+
+/-- non-vacuity: the start-up of the resumed run above passes through 0, 1 and 2 live tasks (each
+`CommandRunWorker` is followed by its `RUNNING` publish: a stutter) -/
+example :
+    let ip (u w : Nat) : InProg :=
+      { ev := C01.exEv u, wid := w, snapEvents := [], snapWaiters := [], attempts := 0, firstAt := 0 }
+    let st0 : State := { isRunning := true, workers := fun s =>
+      if s = 1 then { inProg := [ip 1 1, ip 2 0], queue := [{ ev := C01.exEv 3 }] } else {} }
+    (Runner.initStates C01.exCfg st0 5 none none).map Runner.slots
+      = [[], [(1, 0)], [(1, 0)], [(1, 0), (1, 1)], [(1, 0), (1, 1)]] := by decide
+
+/-- non-vacuity: one tick that frees a slot and refills it: between the `NOT_RUNNING` publish and the
+`CommandRunWorker` of the queued event the step has one live task, then two again -/
+example :
+    let acts := C01.feed 1 ++ C01.feed 2 ++ C01.feed 3 ++ [.workerDone 1 0 [.result none]]
+    let r := C01.runFrom C01.exCfg C01.exPol initState 0 none none acts
+    ((r.microStates C01.exCfg C01.exPol .drain).map Runner.slots,
+      (r.step C01.exCfg C01.exPol .drain).running.map (fun w => (w.wid, w.ev.uid)))
+      = ([[(1, 1)], [(1, 1)], [(1, 1), (1, 0)], [(1, 1), (1, 0)]], [(1, 2), (0, 3)]) := by decide
+
+/-- the specification is not vacuous either: it rejects a start on an occupied slot … -/
+example : ¬ SlotMove C01.exCfg [{ step := 1, wid := 0, ev := C01.exEv 1 }]
+    [{ step := 1, wid := 0, ev := C01.exEv 1 }, { step := 1, wid := 0, ev := C01.exEv 2 }] := by
+  intro h
+  generalize hR : [({ step := 1, wid := 0, ev := C01.exEv 1 } : Worker)] = R at h
+  generalize hR' : [({ step := 1, wid := 0, ev := C01.exEv 1 } : Worker), { step := 1, wid := 0, ev := C01.exEv 2 }] = R' at h
+  cases h with
+  | stutter => rw [← hR] at hR'; simp at hR'
+  | start w hfree hname hlt =>
+    rw [← hR] at hR' hfree
+    simp only [List.cons_append, List.nil_append, List.cons.injEq, and_true, true_and] at hR'
+    rw [← hR'] at hfree
+    simp [Worker.slot] at hfree
+  | finish s w =>
+    rw [← hR] at hR'
+    have := congrArg List.length hR'
+    have hle := List.length_eraseP_le (p := fun (y : Worker) => y.step == s && y.wid == w)
+      (l := [({ step := 1, wid := 0, ev := C01.exEv 1 } : Worker)])
+    simp only [List.length_cons, List.length_nil] at this hle
+    omega
+  | abort => simp at hR'
+
+/-- … and the unrepaired reducer's double re-run ends in a table that is not safe: by
+`C01_slot_table_spec_safe` its history cannot have been made of slot-table moves only -/
+theorem C01_refuted_slot_safe_unrepaired :
+    let r := Runner.runUnrepaired C01.exCfg C01.exPol (Runner.init C01.exCfg initState 0 none none)
+      C01.doubleRerun
+    ¬ SlotSafe C01.exCfg r.running := by
+  intro r h
+  have := h.1
+  revert this
+  decide
+
+/-! ## The anchored source, as found on this run
+
+`harness/gen/worker_slots.py` re-reads the slot bookkeeping of `control_loop.py` from the current sources into
+`WfModel/GenWorkerSlots.lean`: the capacity test, the candidate list and the pick of `_add_or_enqueue_event`
+are *translated* into Lean functions; the places that change an `in_progress` list, build a
+`CommandRunWorker`, accept an event, look a finishing execution up / take it out, re-run a collecting step,
+and the runner's registration of worker coroutines and tasks are emitted as text.  The theorems below say
+that the model the C01 theorems are about IS that code; an edit of any of these places stops them from
+checking. -/
+
+/-- the model's admission IS the source's: capacity test, candidate list, pick — and `none` of the pick
+(the `IndexError` of `id_candidates[0]`) is the model's `crash` -/
+theorem C01_slot_choice_is_source :
+    (∀ used nw, GenWorkerSlots.pick (GenWorkerSlots.idCandidates used nw) = pickSlot used nw) ∧
+    (∀ (att : Attempt) (step : Nat) (ss : StepState) (nw : Nat) (now : Int),
+      addOrEnqueue att step ss nw now =
+        if GenWorkerSlots.hasSpace ss.inProg.length nw then
+          match GenWorkerSlots.pick (GenWorkerSlots.idCandidates (usedIds ss) nw) with
+          | some id =>
+            ({ ss with inProg := ss.inProg ++ [
+                { ev := att.ev, wid := id, snapEvents := ss.collected, snapWaiters := ss.waiters,
+                  attempts := orNat att.attempts 0, firstAt := orInt att.firstAt now,
+                  lastExc := att.lastExc, lastFailedAt := att.lastFailedAt, rc := att.rc }] },
+              [.runWorker step att.ev id, .publish (.stepState .running step att.ev.ty .unset (some id))])
+          | none => (ss, [.crash])
+        else
+          ({ ss with queue := ss.queue ++ [att] },
+            [.publish (.stepState .preparing step att.ev.ty .unset none)])) := by
+  refine ⟨?_, ?_⟩
+  · intro used nw
+    simp [GenWorkerSlots.pick, GenWorkerSlots.idCandidates, pickSlot, List.head?_eq_getElem?]
+  · intro att step ss nw now
+    unfold addOrEnqueue GenWorkerSlots.hasSpace GenWorkerSlots.pick GenWorkerSlots.idCandidates
+    have hfree : ((List.range nw).filter (fun i => !(usedIds ss).contains i)) = freeIds ss nw := rfl
+    rw [hfree]
+    by_cases h : ss.inProg.length < nw
+    · simp only [h, decide_true, ↓reduceIte]
+      cases freeIds ss nw <;> rfl
+    · simp only [h, decide_false, ↓reduceIte, Bool.false_eq_true]
+
+/-- the pick is the smallest free id whenever one exists (so it is `< nw` and unused): the translated
+source function, not only the model's -/
+theorem C01_source_pick_is_free (used : List Nat) (nw id : Nat)
+    (h : GenWorkerSlots.pick (GenWorkerSlots.idCandidates used nw) = some id) : id < nw ∧ id ∉ used := by
+  have hm : id ∈ GenWorkerSlots.idCandidates used nw := by
+    unfold GenWorkerSlots.pick at h
+    exact List.mem_of_getElem? h
+  simpa [GenWorkerSlots.idCandidates] using hm
+
+/-- the rest of the slot bookkeeping, pinned, with the model clauses that transcribe it -/
+theorem C01_source_shape :
+    GenWorkerSlots.usedSource = "worker_id of .in_progress" ∧
+    GenWorkerSlots.slotUses = ["CommandRunWorker.id", "InProgressState.worker_id",
+      "StepStateChanged.worker_id:str(id)"] ∧
+    -- the row is appended before the command is issued; a full step queues the event instead
+    GenWorkerSlots.admissionEffects =
+      ["then:.in_progress.append(InProgressState);<local>.append(CommandRunWorker);<local>.append(CommandPublishEvent)",
+       "else:.queue.append(event);<local>.append(CommandPublishEvent)"] ∧
+    -- only three statements ever change an `in_progress` list
+    GenWorkerSlots.inProgressMutators = [".append@_add_or_enqueue_event", ".remove@_process_step_result_tick",
+      "assign[]@rewind_in_progress"] ∧
+    (∀ cfg pol step tickEv dc acc r s,
+      ((applyRes cfg pol step tickEv dc acc r).st.workers s).inProg = (acc.st.workers s).inProg) ∧
+    (∀ c ss now, rewindStep c ss now = drain c.name c.numWorkers now
+      ((ss.inProg.map inProgToAttempt).reverse ++ ss.queue).length
+      { ss with queue := (ss.inProg.map inProgToAttempt).reverse ++ ss.queue, inProg := [] }) ∧
+    -- only two places build a `CommandRunWorker`: the admission, and the collect re-run on the execution's own slot
+    GenWorkerSlots.runWorkerSites = ["_add_or_enqueue_event:id=<local>", "_process_step_result_tick:id=.worker_id"] ∧
+    GenWorkerSlots.admissionCallers = ["_process_add_event_tick:2", "_process_step_result_tick:1",
+      "_process_waiter_timeout_tick:1", "rewind_in_progress:1"] ∧
+    -- a result tick finds its execution by worker id, skips further collect results once the re-run is
+    -- scheduled, re-runs on the execution's own slot, and removes the row unless it re-runs
+    GenWorkerSlots.executionLookup = "first of .in_progress with .worker_id Eq tick.worker_id else None" ∧
+    GenWorkerSlots.collectRerun = ["first:if not <flag>: continue", "sets:<flag>=False",
+      "rerun:id=<execution>.worker_id", "init:<flag>=True"] ∧
+    GenWorkerSlots.executionRemoval = ["if <flag>: .in_progress.remove(<execution>)"] ∧
+    (∀ cfg pol step tickEv dc (acc : ResAcc) buf ev, acc.stillInProgress = true →
+      applyRes cfg pol step tickEv dc acc (.addCollected buf ev) = acc) ∧
+    (∀ cfg pol step tickEv dc (acc : ResAcc) buf ev,
+      (applyRes cfg pol step tickEv dc acc (.addCollected buf ev)).cmds = acc.cmds ∨
+      (applyRes cfg pol step tickEv dc acc (.addCollected buf ev)).cmds =
+        acc.cmds ++ [.runWorker step ev acc.exec.wid]) ∧
+    (∀ (acc : ResAcc) step worker tickEv, (settle acc step worker tickEv).1.inProg =
+      if acc.stillInProgress then modifyFirst (fun w => w.wid == worker) (fun _ => acc.exec) (acc.st.workers step).inProg
+      else (acc.st.workers step).inProg.eraseP (fun w => w.wid == worker)) ∧
+    -- the runner: a worker coroutine exists only for a `CommandRunWorker`, is registered under the command's
+    -- (step, id), and leaves the books when its task completes or when everything is cleaned up
+    GenWorkerSlots.runWorkerCallers = ["process_command:CommandRunWorker"] ∧
+    GenWorkerSlots.pendingEntry = "PendingWorker(.step_name, .id, <coroutine>)" ∧
+    GenWorkerSlots.pendingMutators = [".append@run_worker", ".clear@cleanup_tasks", ".clear@run"] ∧
+    GenWorkerSlots.workerTaskMutators = [".add@run", ".clear@cleanup_tasks", ".discard@run"] ∧
+    GenWorkerSlots.taskKeyMutators = [".clear@cleanup_tasks", ".pop@run", "setitem@run"] ∧
+    (∀ (r : Runner) s ev w, execCmd r (.runWorker s ev w) =
+      { r with running := r.running ++ [{ step := s, wid := w, ev := ev }] }) ∧
+    (∀ (r : Runner) o, (r.finish o).running = []) := by
+  refine ⟨by decide, by decide, by decide, by decide, ?_, fun _ _ _ => rfl, by decide, by decide, by decide,
+    by decide, by decide, ?_, ?_, ?_, by decide, by decide, by decide, by decide, by decide,
+    fun _ _ _ _ => rfl, fun _ _ => rfl⟩
+  · intro cfg pol step tickEv dc acc r s
+    exact (applyRes_inProg cfg pol step tickEv dc acc r).1 s
+  · intro cfg pol step tickEv dc acc buf ev h
+    simp [applyRes, h]
+  · intro cfg pol step tickEv dc acc buf ev
+    simp only [applyRes]
+    split
+    · exact Or.inl rfl
+    · split
+      · exact Or.inr rfl
+      · exact Or.inl rfl
+  · intro acc step worker tickEv
+    unfold settle
+    split <;> rfl
+
+/-- non-vacuity: the translated functions on a concrete table — slots 0 and 2 used out of 4: the pick is 1;
+a full table has no candidate -/
+example : GenWorkerSlots.idCandidates [0, 2] 4 = [1, 3] ∧ GenWorkerSlots.pick (GenWorkerSlots.idCandidates [0, 2] 4) = some 1 ∧
+    GenWorkerSlots.pick (GenWorkerSlots.idCandidates [1, 0] 2) = none ∧ GenWorkerSlots.hasSpace 1 2 = true ∧
+    GenWorkerSlots.hasSpace 2 2 = false := by decide
